@@ -458,7 +458,7 @@ func TestC16(t *testing.T) {
 	if ev.Thorough() {
 		L = 7
 	}
-	rec.Rule = fmt.Sprintf("reader: ALL sequences over the 7 chunk kinds of length 0..%d, each with and without an appended end chunk, realised as concrete streams (1-3 bytes per chunk, varying lc/lp/pb) and judged by an independent three-flag automaton (need dictionary reset / need properties / ended): legal => exact bytes and clean EOF (or an error when the end chunk is missing), illegal => error after exactly the bytes of the chunks before the offending one; ALL 256 control bytes as first chunk and after a legal first chunk (LZMA control bytes realised with the uncompressed size their low bits announce); writer: rapid histories (the C08 generator biased to >= 64 KiB incompressible / >= 2 MiB compressible writes) whose output after every Flush/Close is parsed by the reference decoder: legal sequence, compressed chunk <= 64 KiB / 2 MiB, raw chunk <= 64 KiB; non-trivial = sequence length >= 2 (each sequence distinct by construction), every control byte, writer output with >= 2 chunks", L)
+	rec.Rule = fmt.Sprintf("reader: ALL sequences over the 7 chunk kinds of length 0..%d, each with and without an appended end chunk, realised as concrete streams (1-3 bytes per chunk, varying lc/lp/pb) and judged by an independent three-flag automaton (need dictionary reset / need properties / ended): legal => exact bytes and clean EOF (or an error when the end chunk is missing), illegal => error after exactly the bytes of the chunks before the offending one; ALL 256 control bytes as first chunk and after a legal first chunk (LZMA control bytes realised with the uncompressed size their low bits announce); chunk header size fields at their boundaries (raw 1..65536, LZMA uncompressed 1..2 MiB, LZMA compressed 7..65536 bytes fitted exactly), each as a legal stream that must decode to the constructed bytes; writer: rapid histories (the C08 generator biased to >= 64 KiB incompressible / >= 2 MiB compressible writes) whose output after every Flush/Close is parsed by the reference decoder: legal sequence, compressed chunk <= 64 KiB / 2 MiB, raw chunk <= 64 KiB; non-trivial = sequence length >= 2 (each sequence distinct by construction), every control byte, writer output with >= 2 chunks", L)
 	rec.Extra["max_sequence_length"] = L
 	var seqs int64
 	enumerate(t, rec, checkC16, func(try func(caseC16) bool) {
@@ -491,6 +491,28 @@ func TestC16(t *testing.T) {
 					if !try(caseC16{Kind: "ctrl", Ctrl: ctrl, After: after}) {
 						complete = false
 					}
+				}
+			}
+		}
+		// chunk header size fields at their boundaries, each realised as a
+		// legal stream: uncompressed chunk sizes, LZMA chunk uncompressed sizes
+		// (long matches) and LZMA chunk compressed sizes (literals fitted to
+		// the exact byte count), up to the format maxima 64 KiB / 2 MiB / 64 KiB
+		if rec.Shard == 1%rec.Shards {
+			var fits []gen.Src
+			for _, n := range []int{1, 2, 255, 256, 257, 65535, 65536} {
+				fits = append(fits, gen.Src{RawFit: n})
+			}
+			for _, n := range []int{1, 2, 256, 65535, 65536, 65537, 1 << 20, 1<<20 + 1, 1<<21 - 1, 1 << 21} {
+				fits = append(fits, gen.Src{UFit: n})
+			}
+			for _, n := range []int{7, 255, 256, 257, 4096, 65535, 65536} {
+				fits = append(fits, gen.Src{CFit: n})
+			}
+			for i, f := range fits {
+				f.Fmt, f.Origin, f.Seed, f.NOps, f.NChunks = "lzma2", "ref", uint64(1000+i), 3, i%3
+				if !complete || !try(caseC16{Kind: "src", Src: &f}) {
+					complete = false
 				}
 			}
 		}
